@@ -6,7 +6,8 @@ import random
 
 from . import core, fesrv, tlc
 
-HEAD = 'import "std/io";\nfn id(v: i32) -> i32 { return v; }\n'
+HEAD = ('import "std/io";\nfn id(v: i32) -> i32 { return v; }\nfn idu32(v: u32) -> u32 { return v; }\n'
+        'fn idu64(v: u64) -> u64 { return v; }\nfn idi64(v: i64) -> i64 { return v; }\n')
 
 
 def body_lines(case):
@@ -36,6 +37,11 @@ def body_lines(case):
             b += ["    const K%d: i32 = %d;" % (nconst, e["v"]), "    io::Println(x[K%d]);" % nconst]
         elif k == "rdo":
             b.append("    io::Println(x[id(%d)]);" % e["v"])
+        elif k == "rdw":
+            if not (e["ty"] == "u32" and int(e["big"]) > 4294967295):   # (not generated: u32 cannot hold it)
+                b.append("    io::Println(x[id%s(%s)]);" % (e["ty"], e["big"]))
+            else:
+                b.append("    io::Println(x[idu64(%s)]);" % e["big"])
         elif k == "rdi":
             b.append("    io::Println(x[i]);")
         elif k == "rdni":
@@ -81,6 +87,8 @@ def ev_key(case):
         k = e["k"]
         if k in ("let", "set", "ifset", "rdl", "rdc", "rdo", "defk"):
             return "%s(%d)" % (k, e["v"])
+        if k == "rdw":
+            return "rdw(%s,%s)" % (e["ty"], e["big"])
         if k == "wrl":
             return "wrl(%d)" % e["v"]
         return k
@@ -98,6 +106,9 @@ def klass(case):
     last = ks[-1]
     le = case["events"][-1]
     sign = ""
+    if last == "rdw":
+        # wide opaque indices form their own classes, independent of what happened before
+        return "%s|rdw-%s-%s|wide" % (case["kind"], le["ty"], "ge2p32" if int(le["big"]) >= 2 ** 32 else "lt2p32")
     if "v" in le and last in ("rdl", "rdc", "rdo", "wrl"):
         sign = "neg" if le["v"] < 0 else "pos"
     if any(k == "defk" for k in ks):
